@@ -2,8 +2,9 @@
 
 Each generated program is re-spelled k times using only the documented freedoms (commas or
 whitespace between operands, blank lines, whole-line and trailing # comments, indentation, register
-as number / xN / ABI alias, integers in decimal / hex / binary, `imm(reg)` vs `reg, imm` for
-base+offset instructions); the real assembler's outputs (bytes and ordered label table, both modes)
+as number / xN / ABI alias, integers in decimal / hex / binary, the code point of a printable character as
+that character between single quotes - blank, comma, `#`, parentheses and the quote included -, `imm(reg)` vs
+`reg, imm` for base+offset instructions); the real assembler's outputs (bytes and ordered label table, both modes)
 must be pairwise equal, and the Lean model must agree on every variant.
 """
 import json
@@ -41,6 +42,19 @@ def ints(rnd, v):
     return ('-' if v < 0 else '') + '0X%X' % abs(v)
 
 
+# I-type instructions whose last operand is an expression (a branch / jal target written as a number is an offset, not an expression)
+CHAR_IMM = ('addi', 'andi', 'ori', 'xori', 'slti', 'sltiu')
+
+
+def imms(rnd, v):
+    """an immediate / data value that is an expression: the integer spellings, or - the code point of a printable character -
+    the character between single quotes ("Character literals can also be used if surrounded by single-quotes"); the
+    backslash is written twice"""
+    if 0x20 <= v < 0x7f and rnd.random() < 0.4:
+        return "'\\\\'" if v == 0x5c else "'%s'" % chr(v)
+    return ints(rnd, v)
+
+
 def sep(rnd):
     return rnd.choice([' ', ',', ', ', '  ', '\t', ' , ', ',\t'])
 
@@ -61,14 +75,16 @@ def respell(ln, rnd, consts):
     if k == 'instr':
         ops = ln.ops
         if ln.name in LOADS and len(ops) == 3 and rnd.random() < 0.5:
-            return '%s %s%s%s(%s)' % (ln.name, rs(rnd, ops[0][1]), sep(rnd), ints(rnd, ops[2][1]), rs(rnd, ops[1][1]))
+            return '%s %s%s%s(%s)' % (ln.name, rs(rnd, ops[0][1]), sep(rnd), imms(rnd, ops[2][1]), rs(rnd, ops[1][1]))
         if ln.name in STORES and len(ops) == 3 and rnd.random() < 0.5:
-            return '%s %s%s%s(%s)' % (ln.name, rs(rnd, ops[1][1]), sep(rnd), ints(rnd, ops[2][1]), rs(rnd, ops[0][1]))
+            return '%s %s%s%s(%s)' % (ln.name, rs(rnd, ops[1][1]), sep(rnd), imms(rnd, ops[2][1]), rs(rnd, ops[0][1]))
         shamt = ln.name in ('slli', 'srli', 'srai')
         toks = []
         for i, (kind, v) in enumerate(ops):
             if kind == 'r' and not (shamt and i == 2):
                 toks.append(rs(rnd, v))
+            elif ln.name in CHAR_IMM and i == 2:
+                toks.append(imms(rnd, v))
             else:
                 toks.append(ints(rnd, v) if v >= 0 or kind == 'i' else str(v))
         return join(rnd, ln.name, toks)
@@ -83,7 +99,7 @@ def respell(ln, rnd, consts):
     if k == 'pjump':
         return join(rnd, ln.name, [ln.label])
     if k == 'li':
-        return join(rnd, 'li', [rs(rnd, ln.ops[0]), ints(rnd, ln.extra)])
+        return join(rnd, 'li', [rs(rnd, ln.ops[0]), imms(rnd, ln.extra)])
     if k == 'unary':
         return join(rnd, ln.name, [rs(rnd, ln.ops[0]), rs(rnd, ln.ops[1])])
     if k == 'pjr':
@@ -93,9 +109,9 @@ def respell(ln, rnd, consts):
     if k == 'seq':
         return join(rnd, ln.name, [ints(rnd, v) for v in ln.ops])
     if k == 'short':
-        return join(rnd, ln.name, [ints(rnd, ln.ops[0])])
+        return join(rnd, ln.name, [imms(rnd, ln.ops[0])])
     if k == 'pack':
-        return join(rnd, 'pack', [ln.name, ints(rnd, ln.ops[0])])
+        return join(rnd, 'pack', [ln.name, imms(rnd, ln.ops[0])])
     if k == 'align':
         return join(rnd, 'align', [ints(rnd, ln.ops[0])])
     if k == 'label':
@@ -130,6 +146,30 @@ def literal_transfers(rnd):
     return out
 
 
+def char_lines(rnd):
+    """immediates and data values in the range of the printable characters, so that the quoted spelling gets used: blank, comma,
+    '#', parentheses, the quote and the backslash in particular"""
+    out = []
+    for _ in range(rnd.randrange(0, 4)):
+        v = rnd.choice([0x20, 0x23, 0x27, 0x28, 0x29, 0x2c, 0x5c, rnd.randrange(0x20, 0x7f)])
+        a, b = rnd.randrange(32), rnd.randrange(32)
+        k = rnd.randrange(5)
+        if k == 0:
+            name = rnd.choice(CHAR_IMM)
+            out.append(progs.Ln('    %s x%d, x%d, %d' % (name, a, b, v), 'instr', name, [('r', a), ('r', b), ('i', v)]))
+        elif k == 1:
+            name = rnd.choice(LOADS[:5])
+            out.append(progs.Ln('    %s x%d, x%d, %d' % (name, a, b, v), 'instr', name, [('r', a), ('r', b), ('i', v)]))
+        elif k == 2:
+            out.append(progs.Ln('    li x%d, %d' % (a, v), 'li', 'li', [a], extra=v))
+        elif k == 3:
+            d = rnd.choice(['db', 'dh', 'dw', 'dd'])
+            out.append(progs.Ln('    %s %d' % (d, v), 'short', d, [v]))
+        else:
+            out.append(progs.Ln('    pack <H, %d' % v, 'pack', '<H', [v]))
+    return out
+
+
 def variant(lines, rnd):
     consts = set(l.name for l in lines if l.kind == 'const')
     out = []
@@ -159,7 +199,7 @@ def one_case(args):
     asm = progs.get_asm()
     rnd = common.rng('c13:%d' % idx)
     lines = progs.gen_program(rnd, size=rnd.randrange(4, 24), fillers=False)
-    for ln in literal_transfers(rnd):
+    for ln in literal_transfers(rnd) + char_lines(rnd):
         lines.insert(rnd.randrange(len(lines) + 1), ln)
     base = progs.source(lines)
     variants = [base] + [variant(lines, rnd) for _ in range(nvar)]
